@@ -1,0 +1,46 @@
+// Copyright 2021 TiKV Project Authors.
+//
+// Licensed under the Apache License, Version 2.0 (the "License");
+// you may not use this file except in compliance with the License.
+// You may obtain a copy of the License at
+//
+//     http://www.apache.org/licenses/LICENSE-2.0
+//
+// Unless required by applicable law or agreed to in writing, software
+// distributed under the License is distributed on an "AS IS" BASIS,
+// See the License for the specific language governing permissions and
+// limitations under the License.
+
+//go:build verif
+// +build verif
+
+// Assumed contracts for the cluster interface seen by schedulers, checkers and the replication-mode manager
+// (checked by /verif/govc at call sites only; comment-only file).
+package opt
+
+// The cluster view is read-only for its clients; AllocID is the cluster-wide id allocator (C04).
+//@ func (Cluster).AllocID
+//@   assumed
+//@   option event AllocID
+//@   modifies nothing
+//@ func (Cluster).GetStores
+//@   assumed
+//@   ensures forall i :: 0 <= i && i < len(result) ==> result[i] != nil
+//@   modifies nothing
+//@ func (Cluster).ScanRegions
+//@   assumed
+//@   ensures forall i :: 0 <= i && i < len(result) ==> result[i] != nil && result[i].meta != nil
+//@   modifies nothing
+//@ func (Cluster).GetRegionCount
+//@   assumed
+//@   ensures 0 <= result && result <= 281474976710656
+//@   modifies nothing
+//@ func (Cluster).GetRegion
+//@   assumed
+//@   modifies nothing
+//@ func (Cluster).GetStore
+//@   assumed
+//@   modifies nothing
+//@ func (Cluster).GetOpts
+//@   assumed
+//@   modifies nothing
